@@ -1289,6 +1289,16 @@ Section Queries.
     pose proof (inv_rect g HI) as (R1 & R2 & R3).
     assert (Rq : 0 < inject_Z (g_res g)) by (apply inject_Z_pos; auto).
     unfold get_region.
+    assert (Meets : Qle_bool (Qmax (vx lo) (inject_Z (g_minx g))) (Qmin (vx hi) (inject_Z (g_maxx g))) &&
+                    Qle_bool (Qmax (vz lo) (inject_Z (g_minz g))) (Qmin (vz hi) (inject_Z (g_maxz g))) = true).
+    { apply andb_true_intro. split; apply Qle_bool_iff.
+      - rewrite (Q.max_r _ _ C1), (Q.min_r _ _ C3), LX, inject_Z_plus, inject_Z_mult.
+        assert (0 <= inject_Z (Z.of_nat (ncols g))) by (change 0 with (inject_Z 0); rewrite <- Zle_Qle; lia).
+        pose proof (Qmult_le_0_compat _ _ H (Qlt_le_weak _ _ Rq)). lra.
+      - rewrite (Q.max_r _ _ C2), (Q.min_r _ _ C4), LZ, inject_Z_plus, inject_Z_mult.
+        assert (0 <= inject_Z (Z.of_nat (nrows g))) by (change 0 with (inject_Z 0); rewrite <- Zle_Qle; lia).
+        pose proof (Qmult_le_0_compat _ _ H (Qlt_le_weak _ _ Rq)). lra. }
+    rewrite Meets. cbn [negb].
     assert (X0 : cellx g (Qmax (vx lo) (inject_Z (g_minx g))) = 0%Z).
     { unfold cellx. apply cell_coord_unique; auto.
       - change (inject_Z 0) with 0. pose proof (Q.le_max_r (vx lo) (inject_Z (g_minx g))). lra.
